@@ -48,7 +48,19 @@ TrBackground == /\ HasEvent("Background") /\ UNCHANGED vars
                      bins_not_index_plus_last |-> E.bins # [i \in 1..(Len(E.index) + 1) |-> i - 1],
                      rows_misaligned |-> E.nrows # Len(E.index) \/ E.pcdelta_len # Len(E.index) ]))
 
-TraceNext == TrSilent \/ TrCall \/ TrSampled \/ TrBackground
+\* long homopolymer strings <<letter, length>> (hundreds of letters): counts per bin from the closed-form distances
+TrHomo == /\ HasEvent("Homo") /\ UNCHANGED vars
+          /\ LET x == E.x
+                 y == E.y
+                 cnt(b) == IF Len(y) = 0
+                           THEN Cardinality({ ij \in (1..Len(x)) \X (1..Len(x)) : ij[1] < ij[2] /\ InBin(HomoDist(x[ij[1]], x[ij[2]]), E.edges, b) })
+                           ELSE Cardinality({ ij \in (1..Len(x)) \X (1..Len(y)) : InBin(HomoDist(x[ij[1]], y[ij[2]]), E.edges, b) })
+             IN Consume(Named([
+                  raised |-> E.raised,
+                  length_wrong |-> ~E.raised /\ Len(E.hist) # Len(E.edges) - 1,
+                  long_string_bin_wrong |-> ~E.raised /\ Len(E.hist) = Len(E.edges) - 1 /\ \E b \in 1..Len(E.hist) : E.hist[b] # cnt(b) ]))
+
+TraceNext == TrSilent \/ TrCall \/ TrSampled \/ TrBackground \/ TrHomo
 TraceSpec == TraceInit /\ [][TraceNext]_<<vars, xvars>>
 SessionDone == l > Len(Events)
 EmitVerdict == SessionDone => PrintT(ToJson([sid |-> Sessions[s].sid, n |-> Len(Events), verdict |-> verdict]))
